@@ -26,7 +26,12 @@ INFO = {
 }
 
 FIRST_CALLS = [('rate', t, l) for t in (None, 0.0, 0.37) for l in (None, True, False)] + \
-              [('predict_win', None, None), ('predict_draw', None, None), ('predict_rank', None, None)]
+              [('predict_win', None, None), ('predict_draw', None, None), ('predict_rank', None, None)] + \
+              [(who + ':' + op, None, None) for who in ('sibling', 'cousin')
+               for op in ('rate', 'predict_win', 'predict_draw', 'predict_rank')]
+# 'sibling:<op>': the earlier call goes through ANOTHER instance of the same class with a different configuration
+# (beta x 3, other kappa/tau) - exposes class-level or module-level caches keyed too coarsely;
+# 'cousin:<op>': through an instance of a different model class.
 SECOND_OPS = ['rate', 'predict_win', 'predict_draw', 'predict_rank']
 
 
@@ -151,21 +156,47 @@ def _mk_teams(m, shape, mk, ids_log=None):
     return teams
 
 
+def pristine():
+    """drop every openskill module and import the package afresh (new class objects, new module globals),
+    so that class-level / module-level state left by earlier calls or earlier paths cannot leak into a baseline"""
+    import sys as _sys
+    from sx import core
+    for name in [n for n in _sys.modules if n == 'openskill' or n.startswith('openskill.')]:
+        del _sys.modules[name]
+    core.install()
+
+
 def run_hist(key, op, shape, ls0, first, tie, mk):
-    """(result of second call after `first`, result of the same call on a fresh model)"""
+    """(result of second call after `first`, result of the same call on a fresh model in a pristine import)"""
+    pristine()
     Model = H.model_class(key)
     # the model configuration is concrete here (library defaults), so that the first call runs natively;
     # the second game is symbolic.  Symbolic configurations are covered by the monitor jobs.
     kw = dict(beta=25.0 / 6.0, kappa=0.0001, tau=25.0 / 300.0, limit_sigma=ls0)
     m = Model(**kw)
     fop, ft, fl = first
-    g1 = _first_game(m)
+    m1 = m
+    if ':' in fop:
+        who, fop = fop.split(':')
+        other_cfg = dict(beta=3 * 25.0 / 6.0, kappa=0.001, tau=0.5, limit_sigma=not ls0)
+        if who == 'sibling':
+            m1 = Model(**other_cfg)
+        else:
+            m1 = H.model_class([k for k in H.ALL if k != key][0 if key != 'pl' else 1])(**other_cfg)
+    g1 = _first_game(m1)
+    if shape == (1, 1) or sum(shape) == sum(len(t) for t in g1):
+        pass
+    # the earlier call also sees a game with the same number of players as the later one (caches keyed by counts)
+    g1b = [[m1.rating(26.0 + i + j, 5.0 + i) for j in range(n)] for i, n in enumerate(shape)]
     if fop == 'rate':
-        m.rate(g1, ranks=[1, 0, 1], tau=ft, limit_sigma=fl)
+        m1.rate(g1, ranks=[1, 0, 1], tau=ft, limit_sigma=fl)
+        m1.rate(g1b, ranks=list(range(len(shape))), tau=ft, limit_sigma=fl)
     else:
-        getattr(m, fop)(g1)
+        getattr(m1, fop)(g1)
+        getattr(m1, fop)(g1b)
     a = _call(m, op, _mk_teams(m, shape, mk), _ranks_for(shape, tie) if op == 'rate' else None)
-    m2 = Model(**kw)
+    pristine()
+    m2 = H.model_class(key)(**kw)
     b = _call(m2, op, _mk_teams(m2, shape, mk), _ranks_for(shape, tie) if op == 'rate' else None)
     return a, b
 
